@@ -520,11 +520,74 @@ def bounded(rec):
     import pints
     import xarray as xr
     sel = [p_ for p_ in posteriors(real, 'quick') if any(t in p_[0] for t in ("('G', 1, 0), ('P', 1, 0))", "('G', 1, 0), ('H', 1, 0))", "('CG', 1, 1),)", 'LogPosterior(3 parameters, id set)', "(('Gn', 2, 0),), 2"))]
-    cases = [('controller.start', k) for k in range(len(sel))] + [('optimisation', k) for k in range(len(sel))] + [('sampling.run', k) for k in range(len(sel))] + [('read.back', 0), ('read.back', 1), ('read.back', 2), ('read.back', 3), ('read.back', 4),
+    cases = [('optimisation.broken', k) for k in (1, 2, 3, 4)] + [('controller.start', k) for k in range(len(sel))] + [('optimisation', k) for k in range(len(sel))] + [('sampling.run', k) for k in range(len(sel))] + [('read.back', 0), ('read.back', 1), ('read.back', 2), ('read.back', 3), ('read.back', 4),
                                                                                                           ('read.back', 5), ('read.back', 6)]
+
+    def broken_runs(seed):
+        # some runs break (the model cannot be evaluated for a negative first parameter, where some of the seeded starting points lie): a broken
+        # run is reported as missing estimates, never as the numbers of another run
+        from contracts.c16 import native_toy
+        Base = native_toy(1, 2)
+
+        class Partial(Base):
+            def simulate(self, parameters, times):
+                if parameters[0] < 0:
+                    raise ValueError('the model is not defined for a negative first parameter')
+                return Base.simulate(self, parameters, times)
+
+            def copy(self):
+                return Partial()
+        inner = pints.ComposedLogPrior(pints.GaussianLogPrior(0.2, 1.0), pints.GaussianLogPrior(0.5, 0.3), pints.LogNormalLogPrior(0.0, 0.3))
+
+        class Strict(pints.LogPrior):
+            # a prior that refuses (raises) outside the region it was elicited for, instead of returning -inf
+            def n_parameters(self):
+                return 3
+
+            def __call__(self, x):
+                if x[0] < 0:
+                    raise ValueError('the prior is not defined for a negative first parameter')
+                return inner(x)
+
+            def evaluateS1(self, x):
+                if x[0] < 0:
+                    raise ValueError('the prior is not defined for a negative first parameter')
+                return inner.evaluateS1(x)
+
+            def sample(self, n=1):
+                return inner.sample(n)
+        ll = real.LogLikelihood(Base(), real.GaussianErrorModel(), [6.1, 6.4, 5.8], [1.0, 2.0, 3.0])
+        post = real.LogPosterior(ll, Strict())
+        ctrl = real.OptimisationController(post, seed=seed)
+        ctrl.set_n_runs(6)
+        ctrl.set_parallel_evaluation(False)
+        ctrl.set_optimiser(pints.NelderMead)
+        try:
+            df = ctrl.run(n_max_iterations=25)
+        except Exception as ex:
+            return 'OptimisationController(seed=%d) with runs that break: run raises %r' % (seed, ex)
+        rows = {}
+        for run in sorted(df['Run'].unique()):
+            part = df[df['Run'] == run]
+            rows[int(run)] = (np.asarray(part['Estimate'], dtype=float), np.asarray(part['Score'], dtype=float))
+        if sorted(rows) != [1, 2, 3, 4, 5, 6]:
+            return 'OptimisationController(seed=%d) with runs that break: the table lists the runs %s of 6' % (seed, sorted(rows))
+        for r1 in rows:
+            e1, s1 = rows[r1]
+            if np.all(np.isnan(e1)) != np.all(np.isnan(s1)) or (np.any(np.isnan(e1)) and not np.all(np.isnan(e1))):
+                return 'OptimisationController(seed=%d): run %d reports the estimates %s with the score %s' % (seed, r1, e1.tolist(), s1.tolist())
+            if not np.any(np.isnan(e1)) and not np.isclose(post(e1), s1[0], rtol=1e-9, atol=1e-9):
+                return 'OptimisationController(seed=%d): run %d: the estimates give %r, the table reports %r' % (seed, r1, float(post(e1)), float(s1[0]))
+            for r2 in rows:
+                if r2 > r1 and not np.any(np.isnan(e1)) and np.array_equal(e1, rows[r2][0]):
+                    return ('OptimisationController(seed=%d), 6 runs of which some break: runs %d and %d report the bit-identical estimates %s and score %r although they start from different points '
+                            '(a run that breaks is reported with missing estimates)') % (seed, r1, r2, e1.tolist(), float(s1[0]))
+        return None
 
     def one(case):
         kind, k = case
+        if kind == 'optimisation.broken':
+            return broken_runs(k)
         if kind == 'optimisation':
             label, post = sel[k]
             ctrl = real.OptimisationController(post, seed=2)
